@@ -3,7 +3,7 @@
   Every theorem is about the definitions of Model/Persist.lean, i.e. the ones oracle_c07 executes and
   go/cmd/c07 compares with the real code at every crash point (point-name sequence and recovered state).
 -/
-import GocoinV.Proofs.C07
+import GocoinV.Proofs.C07Hist
 namespace GocoinV.Props.C07
 open GocoinV.Persist GocoinV.Proofs.C07
 
@@ -32,16 +32,67 @@ theorem witness_failure_window :
       (consistentAt [] witnessOps k = false ↔ (witnessLo ≤ k ∧ k < witnessHi)) := by decide +kernel
   exact h k (by omega)
 
-/-! ## crash consistency where the property's window is not entered
+/-! ## crash consistency: what is proved for ALL histories and ALL crash points
+
+The on-disk invariant (`Proofs.C07.DiskInv`, Proofs/C07Disk.lean): at every prefix of the effect list
+  * UTXO.db, UTXO.old and every <hash>.db.tmp hold a snapshot whose (tip, coins) pair the running node held at an
+    operation boundary and whose tip is genesis or has an index record;
+  * every index record is valid, has its block in the data file, and its parent is genesis or indexed (whole ancestry
+    in the index); every data block's parent is indexed.
+It is preserved by every single effect (`apply_inv`) and, through the node/disk coupling `InvQ` (Proofs/C07Node.lean:
+records marked on-disk are in the index file, the others are queued parent-before-child, Chain.Idle flushes the queue
+before a snapshot starts, a paused writer holds the current state, a clean set means the loadable snapshot IS the
+current state), by every operation of the model prefix-wise: save (any chunk count, paused, aborted, hurried),
+CommitBlockTxs, UndoBlockTxs, BlockTrusted, ParseTillBlock, MoveToBlock (reorganisation), BlockAdd, CommitBlock,
+AcceptBlock, writeOne/writeAll, Idle, Close, NewChainExt, the client's recovery loop, a restart in the middle of the
+history (Proofs/C07Ops.lean, C07Run.lean, C07Hist.lean).
 
 -- OPEN: crash_consistent_partial, full strength:
 --   ∀ bigs ops, (∀ prefix, ¬ reorgAfterLastCompletedSnapshot prefix) → ∀ k ≤ (run bigs ops).es.length,
 --     consistentAt bigs ops k = true
--- (invariant over the effect list: "UTXO.db or UTXO.old is a complete snapshot of a block whose whole
---  ancestry is in the index, and for every block between it and the best leaf the data file holds the
---  block"). Proved below only for the five concrete workload shapes the harness runs (every crash point
---  of each, by kernel evaluation) and, for ALL disks and contents, for the three multi-step updates
---  (snapshot save, undo-file write, block append) taken one at a time. -/
+-- Proved of it for ALL histories (`crash_reopen_partial`, also inside the known-finding window and with restarts inside
+-- the history): the NewChainExt stage of `crashAt` never panics and comes up at a past state of the node with the
+-- tip's ancestry indexed and all indexed data present.  NOT proved in general (only on the five concrete shapes
+-- below, by kernel evaluation): (1) that a past in-memory set equals `replay` of its tip's chain (the in-memory
+-- correctness of commit/undo — it is FALSE after a restart inside the known-finding window and needs well-formed
+-- blocks: unique ids, fresh created coins); (2) that the client's recovery loop and feeding the remaining blocks
+-- reach the tip and set of the uninterrupted run (needs FindFirstFather/FindPathTo correctness and a unique best
+-- leaf; the undo files "belonging to their block" part of the invariant is exactly what F8 breaks). -/
+
+/-- `crash_consistent`, the part that holds for EVERY history over {submit (extend / side branch / reorganise), idle,
+    close, restart, skip, pause, hurry} and EVERY crash point k (also k beyond the end = no crash, also inside the
+    known-finding window): re-opening the directory left by the first k effects (NewChainExt: NewUnspentDb +
+    LoadBlockIndex + loadBlockIndex) does not panic — in particular never "Last Block Hash not found" —, the node comes
+    up either at genesis with the empty set or at EXACTLY a (tip, unspent set) pair the running node held at an
+    operation boundary (never a half-written snapshot, never nothing when something was there before the save),
+    that tip is in the loaded block tree, every index record is valid, has its block data and its parent indexed (so
+    the whole ancestry of every indexed block, and the data needed to move to any leaf, are there). -/
+theorem crash_reopen_partial (bigs : List Coin) (ops : List Op) (k : Nat) :
+    ∃ s1, openNode (applyAll {} ((run bigs ops).es.take k)) bigs 0 = .ok s1 ∧
+      ((s1.n.tip = 0 ∧ s1.n.utxo = []) ∨
+        ∃ j, j ≤ ops.length ∧ (run bigs (ops.take j)).n.tip = s1.n.tip ∧ (run bigs (ops.take j)).n.utxo = s1.n.utxo) ∧
+      inTree s1.n s1.n.tip = true ∧
+      (∀ r ∈ s1.d.idx, (∃ b ∈ s1.d.dat, b.id = r.id) ∧ r.invalid = false ∧ (r.parent = 0 ∨ ∃ r' ∈ s1.d.idx, r'.id = r.parent)) ∧
+      (∀ b ∈ s1.d.dat, b.parent = 0 ∨ ∃ r ∈ s1.d.idx, r.id = b.parent) :=
+  crash_reopen' bigs ops k
+
+/-- the invariant itself, at every crash point of every history: the directory is good (see above) -/
+theorem every_crash_prefix_good (bigs : List Coin) (ops : List Op) (k : Nat) :
+    DiskInv (PastState bigs ops) (applyAll {} ((run bigs ops).es.take k)) := by
+  obtain ⟨q, h⟩ := run_inv bigs ops
+  exact h.pref k
+
+/-- a good directory is one NewChainExt opens without a panic, at the snapshot it holds -/
+theorem good_directory_opens (P : BlockId → List Coin → Prop) (d : Disk) (hd : DiskInv P d) (bigs : List Coin) :
+    ∃ s1, openNode d bigs 0 = .ok s1 ∧ s1.err = none ∧ inTree s1.n s1.n.tip = true ∧
+      ((loadSnap d = none ∧ s1.n.tip = 0 ∧ s1.n.utxo = []) ∨ (∃ sn, loadSnap d = some sn ∧ s1.n.tip = sn.tip ∧ s1.n.utxo = sn.coins)) := by
+  obtain ⟨s1, ho, _, he, hc, hin, _⟩ := openNode_inv hd bigs 0
+  refine ⟨s1, ho, he, hin, ?_⟩
+  rcases hc with ⟨a, b, c, _⟩ | ⟨sn, a, b, c, _⟩
+  · exact Or.inl ⟨a, b, c⟩
+  · exact Or.inr ⟨sn, a, b, c⟩
+
+example : ∃ d : Disk, DiskInv (fun _ _ => True) d := ⟨{}, DiskInv.empty _⟩
 
 /-- extend the tip (three blocks, flushed one by one, no snapshot until Close): every crash point recovers -/
 theorem crash_consistent_partial_extend :
@@ -80,7 +131,21 @@ theorem clean_restart_identity_partial :
     cleanRestartOK [] wlExtend = true ∧ cleanRestartOK [2, 3] wlSave = true ∧ cleanRestartOK [2, 3] wlAbort = true ∧
     cleanRestartOK [] wlReorgNoSave = true ∧ cleanRestartOK [] witnessOps = true := by
   decide +kernel
--- OPEN: clean_restart_identity : ∀ bigs ops, (run bigs ops).err = none → cleanRestartOK bigs (ops ++ [.close]) = true
+-- OPEN: clean_restart_identity : ∀ bigs ops, (run bigs (ops ++ [.close])).err = none → cleanRestartOK bigs (ops ++ [.close]) = true
+-- Proved of it for ALL histories: the NewChainExt stage (`clean_restart_reopen_identity_partial`). Missing: that the
+-- client's recovery loop is then a no-op, i.e. that the running node's tip is a highest node of the tree on disk
+-- (needs MoveToBlock/FindPathTo correctness for arbitrary trees).
+
+/-- clean shutdown, every history: after Close (no panic before) NewChainExt on the directory yields EXACTLY the
+    running node's tip, unspent set (the same list) and height. -/
+theorem clean_restart_reopen_identity_partial (bigs : List Coin) (ops : List Op)
+    (herr : (run bigs (ops ++ [.close])).err = none) :
+    ∃ s1, openNode (run bigs (ops ++ [.close])).d bigs 0 = .ok s1 ∧
+      s1.n.tip = (run bigs (ops ++ [.close])).n.tip ∧ s1.n.utxo = (run bigs (ops ++ [.close])).n.utxo ∧
+      s1.n.lastHeight = (run bigs (ops ++ [.close])).n.lastHeight :=
+  clean_restart_reopen' bigs ops herr
+
+example : (run [] ([.submit b1, .idle, .submit bA] ++ [.close])).err = none := by decide +kernel
 
 /-! ## the multi-step updates are atomic under a crash — for ALL disks and contents -/
 
